@@ -31,6 +31,7 @@ structure Quota where
   key : String          -- the id with every '.' removed (`buildProcName`)
   concurrent : Bool
   wild : Bool
+  methods : List String := []   -- `method:` list of the quota's filter (part of the ComparableFilter)
 deriving DecidableEq, Repr, Inhabited
 
 structure Cfg where
@@ -73,9 +74,23 @@ def sysDeclsOfGroup (conns : List String → List Conn) (g : List Quota) : List 
       decs.map (·, "QuotaProcessorDec"), [], conns decs⟩⟩
     if decs.isEmpty then [startF] else [startF, endF]
 
-/-- all system flows, in the order the filter tree yields them (wildcard node first) -/
+/-- the filter a quota's system flows are registered under (URL pattern, methods): quotas with the same filter
+    share ONE system flow representation -/
+def Quota.fkey (q : Quota) : Bool × List String := (q.wild, q.methods)
+
+/-- distinct filter keys in first-occurrence order -/
+def groupKeys : List Quota → List (Bool × List String) → List (Bool × List String)
+  | [], acc => acc
+  | q :: qs, acc => groupKeys qs (if acc.contains q.fkey then acc else acc ++ [q.fkey])
+
+def sysDeclsOfKeys (conns : List String → List Conn) (qs : List Quota) : List (Bool × List String) → List FlowDecl
+  | [] => []
+  | k :: ks => sysDeclsOfGroup conns (qs.filter (·.fkey == k)) ++ sysDeclsOfKeys conns qs ks
+
+/-- all system flows, in the order the filter tree yields them: the wildcard node first; on one node the groups
+    in the order of the quota file (the harness rebuilds the engine until Go's map iteration agrees) -/
 def sysDecls (conns : List String → List Conn) (qs : List Quota) : List FlowDecl :=
-  sysDeclsOfGroup conns (qs.filter (·.wild)) ++ sysDeclsOfGroup conns (qs.filter (!·.wild))
+  sysDeclsOfKeys conns qs ((groupKeys qs []).filter (·.1)) ++ sysDeclsOfKeys conns qs ((groupKeys qs []).filter (!·.1))
 
 inductive LoadErr where
   | yaml                  -- every flow file was skipped by the YAML-level validation
